@@ -88,7 +88,7 @@ def compare(ctx, key, what, ra, rb, replay, sample_perm=None, tol=1e-6, upto_sig
         if conj_cols is not None and B.ndim == 2 and B.shape[1] == len(conj_cols):
             B = np.where(conj_cols[None, :], np.conj(B), B)
         if upto_sign:
-            ip = np.sum(B.conj() * A, axis=0)
+            ip = np.nansum(B.conj() * A, axis=0)
             sg = np.where(np.abs(ip) > 0, ip / np.where(np.abs(ip) > 0, np.abs(ip), 1), 1) if np.iscomplexobj(B) else np.where(np.real(ip) < 0, -1.0, 1.0)
             B = B * sg
         if not Z.same(B, A, tol):
@@ -101,7 +101,7 @@ def compare(ctx, key, what, ra, rb, replay, sample_perm=None, tol=1e-6, upto_sig
         if conj_cols is not None and ya.shape[-1] == len(conj_cols):
             ya = np.where(conj_cols.reshape((1,) * (ya.ndim - 1) + (-1,)), np.conj(ya), ya)
         if upto_sign:
-            ip = np.sum(ya.conj() * xa, axis=tuple(range(len(sd))))
+            ip = np.nansum(ya.conj() * xa, axis=tuple(range(len(sd))))
             sg = np.where(np.abs(ip) > 0, ip / np.where(np.abs(ip) > 0, np.abs(ip), 1), 1) if np.iscomplexobj(ya) else np.where(np.real(ip) < 0, -1.0, 1.0)
             ya = ya * sg
         if not Z.same(ya, xa, tol):
@@ -232,6 +232,14 @@ def run_two_sample_dims(ctx, rng, N):
         da3 = base_data(rng, nt * nm, 1, p, cplx=sp.cplx, red=sp.ordered)
         da = xr.DataArray(da3.values.reshape(nt, nm, p), dims=("time", "member", "x"),
                           coords={"time": np.arange(nt), "member": np.arange(nm) + 10, "x": np.arange(p) * 1.0})
+        if name in ("EOF", "ComplexEOF", "SparsePCA") and (i // len(names)) % 2 == 1:
+            # entirely missing samples spread unevenly over the sample grid (one member misses two times, another one a third): what is
+            # averaged, and over how many samples, must not depend on the order in which the sample dimensions are named or held
+            da = da.copy()
+            da.values[0, 0, :] = np.nan
+            da.values[2, 0, :] = np.nan
+            da.values[1, nm - 1, :] = np.nan
+            ctx.dist["c07:two-sample-dims:unevenly-missing-samples"] += 1
         replay = dict(kind="two-sample-dims", cls=name, data=np.asarray(da.values), shape=da.shape)
         upto = name in ("SparsePCA", "OPA", "POP") or sp.cplx or name == "HilbertEOF"
         try:
@@ -244,6 +252,7 @@ def run_two_sample_dims(ctx, rng, N):
         cut = int(rng.integers(1, p))
         a, b = da.isel(x=slice(0, cut)), da.isel(x=slice(cut, None)).rename({"x": "y"})
         vs = [("transpose-samples", da.transpose("member", "time", "x")), ("transpose-all", da.transpose("x", "member", "time")),
+              ] + ([] if sp.ordered else [("sample-dims-named-in-the-other-order", da)]) + [
               ("list-same-order", [a, b]), ("list-mixed-order", [a, b.transpose("member", "time", "y")]),
               ("list-mixed-order2", [a.transpose("x", "member", "time"), b.transpose("time", "y", "member")])]
         r0l = None
@@ -252,7 +261,7 @@ def run_two_sample_dims(ctx, rng, N):
                      sample=dict(cls=name, shape=list(da.shape), variant=vname))
             try:
                 m1 = sp.make(2)
-                m1.fit(dv, ("time", "member"))
+                m1.fit(dv, ("member", "time") if vname == "sample-dims-named-in-the-other-order" else ("time", "member"))
                 r1 = results(m1, "single")
             except Exception as e:
                 ctx.violation("C07:%s:two-sample-dims:%s:error:%s" % (name, vname, C.errkind(e)), "%s fit raised %r on %s" % (name, e, vname), dict(replay, variant=vname))
